@@ -26,6 +26,9 @@ type Grammar struct {
 	NTs   []string
 	Prods []Prod
 	End   int
+	// ProdDisp, when set, is the text of each production as gocc prints it
+	// (string literals quoted); prodString falls back to the symbol names.
+	ProdDisp []string
 
 	// derived
 	nT       int
@@ -45,6 +48,9 @@ func (g *Grammar) symName(sym int) string {
 }
 
 func (g *Grammar) prodString(p int) string {
+	if p < len(g.ProdDisp) {
+		return g.ProdDisp[p]
+	}
 	pr := g.Prods[p]
 	var b []string
 	for _, s := range pr.Body {
